@@ -6,6 +6,7 @@ package main
 import (
 	"encoding/json"
 	"fmt"
+	"reflect"
 
 	"github.com/Azbesciak/RealDecisionMaker/lib/logic/limited-rationality/satisfaction-levels"
 	"github.com/Azbesciak/RealDecisionMaker/lib/model"
@@ -38,15 +39,26 @@ func levelsOp(args json.RawMessage) (out interface{}) {
 			sources = decreasingSatisfactionLevels
 		}
 		dmp := &model.DecisionMakingParams{ConsideredAlternatives: a.Considered, NotConsideredAlternatives: a.NotConsidered, Criteria: a.Criteria}
-		lv := satisfaction_levels.Find(a.Function, a.Params, sources)
-		lv.Initialize(dmp)
-		levels := make([]model.Weights, 0)
-		for lv.HasNext() {
-			if len(levels) >= a.Max {
-				return map[string]interface{}{"ok": true, "levels": dump(levels), "truncated": true}
+		before := dump(dmp)
+		generate := func() ([]model.Weights, bool) {
+			lv := satisfaction_levels.Find(a.Function, a.Params, sources)
+			lv.Initialize(dmp)
+			levels := make([]model.Weights, 0)
+			for lv.HasNext() {
+				if len(levels) >= a.Max {
+					return levels, true
+				}
+				levels = append(levels, lv.Next())
 			}
-			levels = append(levels, lv.Next())
+			return levels, false
 		}
-		return map[string]interface{}{"ok": true, "levels": dump(levels), "truncated": false}
+		levels, truncated := generate()
+		if truncated {
+			return map[string]interface{}{"ok": true, "levels": dump(levels), "truncated": true}
+		}
+		// the same data a second time: the series is a function of the data, and generating it leaves the data alone
+		again, _ := generate()
+		return map[string]interface{}{"ok": true, "levels": dump(levels), "truncated": false,
+			"again": dump(again), "dataUnchanged": reflect.DeepEqual(before, dump(dmp))}
 	}
 }
